@@ -731,7 +731,7 @@ impl Gen {
                 let op = self.pick(&["v_add", "v_sub", "v_mul", "v_div", "v_add_mut", "v_sub_mut", "v_mul_mut", "v_div_mut", "v_copy_from", "v_dot"]);
                 let bound = if op.starts_with("v_mul") || op == "v_dot" { SMALL } else { MED };
                 let a = self.pick_v(meta, bound)?;
-                let len = if self.p(0.7) { meta[a].c } else { self.other_dim(meta[a].c) };
+                let len = if self.p(0.6) { meta[a].c } else { self.other_dim(meta[a].c) };
                 Some(self.with_vb(meta, oc(op, a, 0, dst, vec![]), len, bound))
             }
             10 | 11 => {
